@@ -43,3 +43,38 @@ Example C07_ex : parse_retry_after (Some (s2b "4294967296")) = Some (86400 * 100
 Proof. vm_compute. repeat split. Qed.
 
 Print Assumptions C07_parse_exact.
+
+(* ---- the poll-interval monitor (Model/Monitors.v step7) accepts every trace of the model ----
+   step7 tracks the interval in force.  After every response that passed authentication (every response when no CUP
+   handler is configured), of any status and for any request kind, the interval in force becomes
+   parse_retry_after(first X-Retry-After value); if that is a change, the very next actions must be the
+   ProtocolStateChange announcing it, the three context writes (the interval's own write carrying exactly the new
+   value in microseconds, or its removal) and a commit — nothing else may come in between.  Exchanges without a response and
+   unauthenticated responses leave it unchanged.  Every protocol state shown to the policy (next-time and
+   check-allowed questions) and to observers carries the interval in force.  The monitor starts from the stored value. *)
+Require Import Verif.Model.Monitors Verif.Proofs.Monitor Verif.Proofs.C07Proof Verif.Model.Proto.
+
+Theorem C07_poll_monitor_accepts_every_model_trace :
+  forall ep cfg url cup apps e, e_trace e = [] ->
+    accepts step7 (init7 cup (e_store e)) (run_case ep cfg url cup apps e) = true.
+Proof. exact model_accepted_c07. Qed.
+
+(* restart: what the committed write stores is what a rebuilt state machine loads *)
+Theorem C07_restart :
+  forall h s, ps_poll (snd (ctx_load (apply_store_op (poll_store_op (parse_retry_after h)) s))) = parse_retry_after h.
+Proof. exact poll_restart. Qed.
+
+Example C07_monitor_rejects :
+  (* a changed interval that is not announced before the flow continues *)
+  accepts step7 {| cup7 := false; p7 := None; todo7 := [] |}
+    [AHttp {| w_uri := []; w_headers := []; w_body := []; w_sum := {| ws_source := ScheduledTask; ws_session := None; ws_request := None; ws_apps := [] |} |}
+           (HResp 200%N (Some (s2b "5")) true BBad);
+     AMetric (MRequestsPerCheck 1 true)] = false
+  /\ (* the policy being shown a stale interval *)
+  accepts step7 {| cup7 := false; p7 := Some 5000000000%Z; todo7 := [] |}
+    [APolicy (QNextTime [] {| s_last_update := None; s_last_check := None; s_next := None |} {| ps_poll := None; ps_fails := 0; ps_proxied := 0 |})
+             (PTiming default_timing)] = false.
+Proof. vm_compute. split; reflexivity. Qed.
+
+Print Assumptions C07_poll_monitor_accepts_every_model_trace.
+Print Assumptions C07_restart.
